@@ -4,7 +4,7 @@ import json, os, sys
 VERIF = os.path.dirname(os.path.dirname(os.path.abspath(__file__)))
 BASE = "cd /repo && /venv/bin/python -m pytest -ra -q -p no:cacheprovider --timeout=900 --continue-on-collection-errors"
 
-TRUST = ("trusted base: CPython ast parser; the source normalisation (sa/normalise.py: private helpers absent from the pinned tree are inlined back where that is exact); the CFG builder with exceptional edges (sa/cfg.py); the raise policy and library effect "
+TRUST = ("trusted base: CPython ast parser; the source normalisation (sa/normalise.py: private helpers absent from the pinned tree are inlined back where that is exact, canonical forms; sa/outline.py: pinned functions written in place are taken out again); the CFG builder with exceptional edges (sa/cfg.py); the raise policy and library effect "
          "table (sa/resolve.py: bodies raise any kind and may re-enter the public recorder API, plug-ins / serializer / storage raise "
          "ordinary exceptions, logging / str.format / container operations on framework-owned values do not raise); abstract "
          "semantics sa/flow.py. Decides named structural clauses that are necessary conditions of the property, not the behaviour as a whole.")
